@@ -317,6 +317,9 @@ func c10Run(t *testing.T, unit string, reverse bool, nShapes, nCases int) {
 	rep.SetRule("seeded log shapes (kind dense/compacted/trimmed/both/empty x segment size 1B..1MiB x append batch 1..3 x uncommitted tail 0..4 x HW inside a compacted segment x read-only via SetStreamReadonly x published through the API or appended directly x empty active segment rolled by the cleaner) on one single-node server, one stream per shape; per shape a shuffled product of start classes (" + fmt.Sprint(len(c10StartClasses)) + ") x stop classes is resolved against the CURRENT log content and issued through apiServer.SubscribeInternal; every delivery is compared (offset, key, value, timestamp) with the list the oracle computed from a raw scan + HW, finite ranges must end with the documented status, keep-waiting is shown by a fence message (append + commit) arriving as the next delivery; non-trivial = request held on a log with gaps / trimmed head / HW below the end / read-only / several segments and delivered or ended; distinct = shape label + start class + stop class")
 	c, srv, err := vfSingle("c10"+unit, func(cfg *Config) {
 		cfg.Streams.CleanerInterval = 3600 * 1e9
+		// keep the server's error log in the unit's log.txt (diagnosis only)
+		cfg.LogSilent = false
+		cfg.LogLevel = 2
 	})
 	if err != nil {
 		rep.Inconc("server start: " + err.Error())
@@ -522,5 +525,5 @@ func (e *c10Env) c10ReadonlyTransition(rng *kit.RNG) {
 }
 
 func TestVerifC10Forward(t *testing.T) {
-	c10Run(t, "forward", false, kit.Scale(60, 320), kit.Scale(110, 200))
+	c10Run(t, "forward", false, kit.Scale(110, 900), kit.Scale(120, 220))
 }
